@@ -50,7 +50,7 @@ CHECKS = {
          "Registers as base-2^b digit strings; windows across register boundaries via the two-register shift lemma; any length. The shift/mask/register arithmetic of __init__, __getitem__, pack, unpack and sliding_window is re-translated from bitarray.py on every run (uint64 wrap explicit) and proved equal to the model.", "4.13, 10.3", ""),
  "C14": ("Coq proof to_array_from_array, from_array_canonical, decode_from_array_R (float PER), canonical-form theorems of slicing / stepping / binary ufuncs / concatenation + dtype-wide correspondence incl. NaN/-0.0",
          "The code's decoder inverts its encoder for every non-empty array; boundaries canonical; no equal neighbours where promised. Canonical form is checked on every RunLengthArray the library returns.", "4.14, 10.3", ""),
- "C15": ("Coq proof get_slice_correct (every slice, every bound), get_position(s)_correct, get_bool_mask_correct, rl_windows_decode (empty windows included), rl_getitem_rlmask_correct + slice-bounds / step-subset / index-wrap kernels re-translated and tied + correspondence",
+ "C15": ("Coq proof get_slice_correct (every slice, every bound), get_position(s)_correct, get_bool_mask_correct, rl_windows_decode (empty windows included), start_to_end_vec_is_rows (the vector window code as written = the scalar code row by row), rl_getitem_rlmask_correct + slice-bounds / step-subset / index-wrap kernels re-translated and tied + correspondence",
          "Run-length slicing decodes to Python's dense[a:b:c] for all bounds and steps; integer / list / mask / run-length-mask / window indexing equal the dense indexing.", "4.15, 10.3", ""),
  "C16": ("Coq proof apply_binary_correct (arbitrary unrelated boundaries), rl_map/sum/any/all/max/mean/hist/concat_correct + dtype-wide correspondence",
          "Merged-boundary binary ufunc decodes to map2 of the dense arrays and has no equal neighbours; reductions on run values equal reductions of the decoded array.", "4.16, 10.3", ""),
